@@ -42,7 +42,8 @@ OPERATOR = {'add': 'PArith OAdd', 'sub': 'PArith OSub', 'mul': 'PArith OMul', 't
 
 class Out:
     def __init__(self):
-        self.defs = []       # (name, coqtype, coqterm)
+        self.defs = []       # (group, name, coqtype, coqterm)
+        self.group = 'Color'
         self.json = {}
         self.soft = []
         try:
@@ -64,8 +65,8 @@ class Out:
             val = self.golden['values'][name]
             self.soft.append({'name': name, 'why': '%s: %s' % (type(e).__name__, e)})
         self.json[name] = val
-        self.defs.append((name, coqtype, to_coq(val)))
-        self.defs.append((name + '_reextracted', 'bool', 'true' if ok else 'false'))
+        self.defs.append((self.group, name, coqtype, to_coq(val)))
+        self.defs.append((self.group, name + '_reextracted', 'bool', 'true' if ok else 'false'))
 
 
 # ----------------------------------------------------------------------------- ast helpers
@@ -174,6 +175,7 @@ def gen(out):
             lambda: percent_formats(find_def(color_t, 'Color', '_rgbatohex_raw'))[0])
 
     for extra in EXTRA:
+        out.group = extra.__name__.replace('gen_', '').capitalize()
         extra(out)
 
 
@@ -467,15 +469,26 @@ EXTRA.append(gen_expr)
 
 
 def render(out):
-    lines = ['(* GENERATED by harness/gen_params.py from %s — do not edit, do not commit. *)' % REPO,
-             'From Coq Require Import String.',
-             'From Coq Require Import List Ascii ZArith QArith.',
-             'Require Import Model.Text Model.ParamTypes Model.Num Model.PyNum.',
-             'Import ListNotations.',
-             '']
-    for name, ty, term in out.defs:
-        lines.append('Definition %s : %s := %s.' % (name, ty, term))
-    return '\n'.join(lines) + '\n'
+    """-> {relative file name: text}: one Gen/P<Group>.v per group plus Gen/Params.v re-exporting all"""
+    head = ['(* GENERATED by harness/gen_params.py from %s — do not edit, do not commit. *)' % REPO,
+            'From Coq Require Import String.',
+            'From Coq Require Import List Ascii ZArith QArith.',
+            'Require Import Model.Text Model.ParamTypes Model.Num Model.PyNum.',
+            'Import ListNotations.',
+            '']
+    groups = []
+    for g, _, _, _ in out.defs:
+        if g not in groups:
+            groups.append(g)
+    files = {}
+    for g in groups:
+        lines = list(head)
+        for gg, name, ty, term in out.defs:
+            if gg == g:
+                lines.append('Definition %s : %s := %s.' % (name, ty, term))
+        files['P%s.v' % g] = '\n'.join(lines) + '\n'
+    files['Params.v'] = '(* GENERATED: re-exports every parameter group. *)\n' + ''.join('Require Export Gen.P%s.\n' % g for g in groups)
+    return files
 
 
 def main():
@@ -483,9 +496,11 @@ def main():
     dest_json = sys.argv[2]
     out = Out()
     gen(out)
-    text = render(out)
+    files = render(out)
+    gen_dir = os.path.dirname(dest_v)
     js = json.dumps({'values': out.json, 'soft': out.soft}, indent=1, sort_keys=True)
-    for path, content in ((dest_v, text), (dest_json, js)):
+    targets = [(os.path.join(gen_dir, fn), content) for fn, content in files.items()] + [(dest_json, js)]
+    for path, content in targets:
         old = None
         if os.path.exists(path):
             old = open(path).read()
